@@ -2,6 +2,7 @@
   C18 (after the repair): every step preserves the invariant, for all well-used histories.
 -/
 import ILV.Lemmas.IncrFull
+import ILV.Lemmas.IncrFuel
 namespace ILV.C18
 
 /-- the common shape: catalogue/facts become those of `s1`, the manager is updated by `f`, then the
@@ -624,22 +625,17 @@ theorem finv_init : FInv init := by
   · intro i h; simp [init] at h
   · intro i n m h; simp [init] at h
 
-theorem evalConverged_head {s : St} {l : List Step} (h : evalConverged s l = true) : convState s = true := by
-  cases l with
-  | nil => exact h
-  | cons st l => simp only [evalConverged, Bool.and_eq_true] at h; exact h.1
+theorem convState_always (s : St) : convState s = true := by
+  simp [convState, conv_always]
 
-theorem finv_runFrom (l : List Step) {s : St} (h : FInv s) (hw : wellUsed s l = true)
-    (hc : evalConverged s l = true) : FInv (runFrom s l) := by
+theorem finv_runFrom (l : List Step) {s : St} (h : FInv s) (hw : wellUsed s l = true) : FInv (runFrom s l) := by
   induction l generalizing s with
   | nil => exact h
   | cons st l ih =>
     simp only [wellUsed, Bool.and_eq_true] at hw
-    simp only [evalConverged, Bool.and_eq_true] at hc
-    exact ih (finv_step h st hw.1 (evalConverged_head hc.2)) hw.2 hc.2
+    exact ih (finv_step h st hw.1 (convState_always _)) hw.2
 
-theorem finv_run (l : List Step) (hw : wellUsed init l = true) (hc : evalConverged init l = true) :
-    FInv (run l) :=
-  finv_runFrom l finv_init hw hc
+theorem finv_run (l : List Step) (hw : wellUsed init l = true) : FInv (run l) :=
+  finv_runFrom l finv_init hw
 
 end ILV.C18
